@@ -136,6 +136,20 @@ def assign_to(ex, st, target, val, cx, k):
             base, idx = vs
             return store_index(ex, s2, base, idx, val, cx, target, k)
         return ex.ev_list(st, [target.value, target.slice], cx, f)
+    if isinstance(target, (ast.Tuple, ast.List)) and val.ty.kind == 'list' \
+            and not any(isinstance(t_, ast.Starred) for t_ in target.elts):
+        # a, b = some_list: a list of any other length is a ValueError
+        n_ = len(target.elts)
+
+        def unpack(s2):
+            def go_l(s3, i):
+                if i == n_:
+                    return k(s3)
+                comp = SV(val.ty.args[0], ex.list_at(s3, val, z3.IntVal(i)))
+                return assign_to(ex, s3, target.elts[i], comp, cx, lambda s4: go_l(s4, i + 1))
+            return go_l(s2, 0)
+        return ex.guard_raise(st, cx, ex.list_len(st, val) != n_, 'ValueError', target, unpack,
+                              why=f'unpacking a list into {n_} names')
     if isinstance(target, (ast.Tuple, ast.List)):
         if val.ty.kind != 'tuple' or len(val.ty.args) != len(target.elts):
             raise VCError(f'tuple unpacking of {val.ty!r} outside subset')
